@@ -287,8 +287,9 @@ int main(int argc, char** argv) {
                           30.0, 60.0, 120.0, 150.0, 210.0, 300.0, 89.9999999, 0.001}) AZIS.push_back(x);
   std::vector<double> S12S = {0, 1, -1, 1e6, -1e6, 1e7, -1e7, 3e7, -3e7};
   if (T) for (double x : {1e-3, 5e6, -5e6, 2.5e7, 10.0, -10.0, 1e3, -1e3, 1e5, 2e7, -2e7, 1.5e7}) S12S.push_back(x);
-  std::vector<double> DLON1 = {0, 150.75};
-  if (T) DLON1.push_back(-190);
+  // start longitudes outside [-180,180] are in the quick tier: with LONG_UNROLL lon2 - lon1 must not depend on whole turns of lon1
+  std::vector<double> DLON1 = {0, 150.75, 270};
+  if (T) { DLON1.push_back(-190); DLON1.push_back(725); }
 
   ctx.bound("ellipsoids", T ? "a=6378137 x f in {0,+-1/298.257223563,+-1/150,+-0.01,+-0.02,+-0.05,+-0.1,+-0.2}, (a=1,f=1/150), (a=1e9,f=-1/150); +-0.005, (a=6371000,f=0); exact mode only: f=0.15, +-0.3, +-0.4, +-0.5, 0.6, -0.75, -1, (a=1e-3,f=0.05) (31)"
                             : "WGS84, sphere, f=-0.01, f=0.2, (a=1,f=1/150); f=-0.5 exact mode only (6)");
